@@ -99,7 +99,8 @@ ObsApply(o, e) ==
   CASE e.e = "Cmd"   -> ObsCmd(ObsPermits(o, e.all, e.ip, e.source), e.v, e.a, e.r)
     [] e.e = "Reply" -> ObsReply(o, e.code)
     [] e.e = "Tgt"   -> ObsTgt(o, e.tgt, e.op, e.r, e.res, e.st, e.ts)
-    [] e.e = "End"   -> ObsEnd(o, e.open, e.all, e.ip, e.source)
+    [] e.e = "End"   -> ObsHeld(ObsEnd(o, e.open, e.all, e.ip, e.source),
+                                IF "held" \in DOMAIN e THEN e.held ELSE "none")
     [] e.e = "Crash" -> ObsCrash(o)
     [] e.e = "Env"   -> IF e.res = "ok" THEN ObsEnv(o, e.k) ELSE o
     [] OTHER -> o
